@@ -71,6 +71,13 @@ func VerifC08Graveyard() {
 			}
 		}
 	}
+	if vnd.Param("EARLY", 0) == 1 {
+		// the early iterators learn the pre-state objects (delivering updates
+		// does not move their delete trackers, which stay at revision 0)
+		for _, x := range its {
+			drain(x)
+		}
+	}
 	for i := 0; i < N; i++ {
 		switch vnd.IntRange("step", 0, 4) {
 		case 0, 1: // insert or delete one of two keys
